@@ -13,12 +13,13 @@ import (
 	"os"
 	"os/exec"
 	"path/filepath"
-	"strings"
+	"sort"
 	"sync"
 	"sync/atomic"
 
 	"crawshaw.io/sqlite"
 	"crawshaw.io/sqlite/sqlitex"
+	"filippo.io/sunlight/internal/verifmc/c05sqlitex"
 )
 
 // ---------------------------------------------------------------------------
@@ -30,15 +31,18 @@ type c05Client struct {
 	held LockedCheckpoint
 }
 
-// c05Classify maps an operation error to conflict / other for backends whose
-// store is not under the harness' control (SQLite): the two conflict errors
-// are the ones sqlite.go produces for changes()==0.
+// c05ClassifySQLite maps an operation error to conflict / other for the SQLite
+// backend (whose store is not under the harness' control): an error that
+// carries an SQLite result code (SQLITE_BUSY, I/O, constraint, ...) is "other",
+// any error the backend itself raises on Replace / Create is its way of saying
+// that the compare failed / the log exists. The wording is not part of the
+// property, so it is not inspected.
 func c05ClassifySQLite(kind string, err error) string {
-	s := err.Error()
-	switch {
-	case kind == "R" && strings.Contains(s, "SQLite checkpoint not found or has changed"):
-		return "conflict"
-	case kind == "C" && strings.Contains(s, "checkpoint already exists"):
+	var se sqlite.Error
+	if errors.As(err, &se) {
+		return "other"
+	}
+	if kind == "R" || kind == "C" {
 		return "conflict"
 	}
 	return "other"
@@ -183,6 +187,10 @@ func (e *c05SQLiteEnv) close() {
 // process.
 type c05Actor interface {
 	step(op c05Op, logID [sha256.Size]byte, emptyNil bool) (c05Rec, bool, error)
+	// stepPaused is step, except that right before the operation's k-th SQL
+	// statement (k >= 1) during() runs to completion. fired reports whether the
+	// operation got as far as a k-th statement.
+	stepPaused(op c05Op, logID [sha256.Size]byte, emptyNil bool, k int, during func() error) (rec c05Rec, skipped, fired bool, err error)
 	reopen() error
 	reset() error
 }
@@ -197,6 +205,29 @@ type c05LocalActor struct {
 func (a *c05LocalActor) step(op c05Op, logID [sha256.Size]byte, emptyNil bool) (c05Rec, bool, error) {
 	r, sk := a.cl.do(op, logID, emptyNil, c05ClassifySQLite)
 	return r, sk, nil
+}
+
+func (a *c05LocalActor) stepPaused(op c05Op, logID [sha256.Size]byte, emptyNil bool, k int, during func() error) (c05Rec, bool, bool, error) {
+	b, ok := a.cl.b.(*SQLiteBackend)
+	if !ok || b == nil {
+		return c05Rec{}, false, false, errors.New("stepPaused needs an SQLite backend")
+	}
+	n, fired := 0, false
+	var derr error
+	c05sqlitex.BeforeStatement = func(conn *sqlite.Conn, query string) {
+		if conn != b.conn {
+			return
+		}
+		n++
+		if n == k && !fired {
+			fired = true
+			c05sqlitex.BeforeStatement = nil // the interleaved operation runs undisturbed
+			derr = during()
+		}
+	}
+	defer func() { c05sqlitex.BeforeStatement = nil }()
+	r, sk := a.cl.do(op, logID, emptyNil, c05ClassifySQLite)
+	return r, sk, fired, derr
 }
 
 func (a *c05LocalActor) reopen() error {
@@ -237,6 +268,7 @@ type c05WReq struct {
 	Op       c05Op  `json:"op"`
 	LogID    []byte `json:"logid,omitempty"`
 	EmptyNil bool   `json:"emptynil,omitempty"`
+	PauseAt  int    `json:"pauseat,omitempty"` // step: announce "paused" before the k-th statement and wait for a "continue" line
 }
 
 type c05WResp struct {
@@ -248,6 +280,9 @@ type c05WResp struct {
 	Skipped bool   `json:"skipped,omitempty"`
 	Fail    string `json:"fail,omitempty"`
 	Pid     int    `json:"pid"`
+	Paused  bool   `json:"paused,omitempty"` // intermediate message: the operation is parked before its k-th statement
+	Query   string `json:"query,omitempty"`
+	Fired   bool   `json:"fired,omitempty"`
 }
 
 // c05WorkerMain is the helper-process mode.
@@ -281,7 +316,24 @@ func c05WorkerMain() {
 			case "step":
 				var id [sha256.Size]byte
 				copy(id[:], q.LogID)
-				r, sk, _ := act.step(q.Op, id, q.EmptyNil)
+				var r c05Rec
+				var sk bool
+				if q.PauseAt > 0 {
+					var perr error
+					r, sk, resp.Fired, perr = act.stepPaused(q.Op, id, q.EmptyNil, q.PauseAt, func() error {
+						b, _ := json.Marshal(c05WResp{Paused: true, Pid: os.Getpid()})
+						out.Write(b)
+						out.WriteByte('\n')
+						out.Flush()
+						_, err := in.ReadBytes('\n') // "continue"
+						return err
+					})
+					if perr != nil {
+						resp.Fail = perr.Error()
+					}
+				} else {
+					r, sk, _ = act.step(q.Op, id, q.EmptyNil)
+				}
 				resp.Rec, resp.Skipped = r, sk
 				resp.Old, resp.New, resp.Val, resp.HasVal = r.Old, r.New, r.Val, r.Val != nil
 			case "exit":
@@ -370,6 +422,30 @@ func (w *c05Worker) step(op c05Op, logID [sha256.Size]byte, emptyNil bool) (c05R
 	return r, resp.Skipped, nil
 }
 
+func (w *c05Worker) stepPaused(op c05Op, logID [sha256.Size]byte, emptyNil bool, k int, during func() error) (c05Rec, bool, bool, error) {
+	resp, err := w.call(c05WReq{Cmd: "step", Op: op, LogID: logID[:], EmptyNil: emptyNil, PauseAt: k})
+	if err != nil {
+		return c05Rec{}, false, false, err
+	}
+	if resp.Paused {
+		// the worker process sits between two statements of its operation
+		derr := during()
+		resp, err = w.call(c05WReq{Cmd: "continue"})
+		if err != nil {
+			return c05Rec{}, false, true, err
+		}
+		if derr != nil {
+			return c05Rec{}, false, true, derr
+		}
+	}
+	r := resp.Rec
+	r.Old, r.New, r.Val = resp.Old, resp.New, resp.Val
+	if resp.HasVal && r.Val == nil {
+		r.Val = []byte{}
+	}
+	return r, resp.Skipped, resp.Fired, nil
+}
+
 func (w *c05Worker) reopen() error { _, err := w.call(c05WReq{Cmd: "reopen"}); return err }
 func (w *c05Worker) reset() error  { _, err := w.call(c05WReq{Cmd: "reset"}); return err }
 
@@ -384,13 +460,24 @@ type c05Exec struct {
 	Counts  []int    // number of options at every decision point (http)
 	Trace   []string
 	Missing string // non-empty: a Fetch of a missing log returned a generic error (message)
+	Fired   bool   // statement-level modes: the preemption point was reached
+}
+
+// c05Preempt places another client's whole operation between two SQL
+// statements of one operation: the operation at position Pos of the order is
+// parked right before its K-th statement (K >= 1) while the operation at
+// position Pos+1 (which belongs to another client, with its own connection or
+// process) runs to completion.
+type c05Preempt struct {
+	Pos int `json:"pos"`
+	K   int `json:"k"`
 }
 
 // runSeq executes the scenario's operations one at a time in the given order
 // (order[i] = client whose next step runs), which for backends whose
 // operations are single critical sections is exactly the set of possible
 // linearization-point orders.
-func (e *c05SQLiteEnv) runSeq(sc c05Scenario, order []int) (*c05Exec, error) {
+func (e *c05SQLiteEnv) runSeq(sc c05Scenario, order []int, pre *c05Preempt) (*c05Exec, error) {
 	k := len(sc.Progs)
 	e.nextID++
 	logID := c05LogID(sc.Mode, e.nextID)
@@ -408,7 +495,7 @@ func (e *c05SQLiteEnv) runSeq(sc c05Scenario, order []int) (*c05Exec, error) {
 			a := &c05LocalActor{path: e.path, cl: c05Client{b: e.setup}}
 			actors[i] = a
 		}
-	case "perconn":
+	case "perconn", "stmt":
 		// one backend object (connection) per client, kept across executions
 		for len(e.per) < k {
 			a := &c05LocalActor{path: e.path, own: true}
@@ -434,7 +521,7 @@ func (e *c05SQLiteEnv) runSeq(sc c05Scenario, order []int) (*c05Exec, error) {
 			locals = append(locals, a)
 			actors[i] = a
 		}
-	case "proc", "procreopen":
+	case "proc", "procreopen", "procstmt":
 		reopenEach = sc.Mode == "procreopen"
 		for len(e.workers) < k {
 			w, err := c05StartWorker(e.path)
@@ -475,7 +562,11 @@ func (e *c05SQLiteEnv) runSeq(sc c05Scenario, order []int) (*c05Exec, error) {
 		}
 	}
 	pc := make([]int, k)
-	for n, c := range order {
+	if pre != nil && (pre.Pos < 0 || pre.Pos+1 >= len(order) || order[pre.Pos] == order[pre.Pos+1] || pre.K < 1) {
+		return nil, fmt.Errorf("bad preemption %+v for order %v", *pre, order)
+	}
+	for n := 0; n < len(order); n++ {
+		c := order[n]
 		if c < 0 || c >= k || pc[c] >= len(sc.Progs[c]) {
 			return nil, fmt.Errorf("schedule step %d: client %d has no step left", n, c)
 		}
@@ -485,8 +576,45 @@ func (e *c05SQLiteEnv) runSeq(sc c05Scenario, order []int) (*c05Exec, error) {
 			}
 		}
 		op := sc.Progs[c][pc[c]]
-		r, skipped, err := actors[c].step(op, logID, (c+pc[c])%2 == 0)
+		emptyNil := (c+pc[c])%2 == 0
 		pc[c]++
+		if pre != nil && n == pre.Pos {
+			// c's operation is interrupted before its K-th statement by the whole
+			// next operation of the order
+			c2 := order[n+1]
+			if c2 < 0 || c2 >= k || pc[c2] >= len(sc.Progs[c2]) {
+				return nil, fmt.Errorf("schedule step %d: client %d has no step left", n+1, c2)
+			}
+			op2 := sc.Progs[c2][pc[c2]]
+			emptyNil2 := (c2+pc[c2])%2 == 0
+			clock++
+			call := clock
+			r, skipped, fired, err := actors[c].stepPaused(op, logID, emptyNil, pre.K, func() error {
+				r2, skipped2, err := actors[c2].step(op2, logID, emptyNil2)
+				if err != nil {
+					return err
+				}
+				if !skipped2 {
+					stamp(r2, c2)
+				}
+				return nil
+			})
+			if err != nil {
+				return nil, err
+			}
+			if !skipped {
+				clock++
+				r.Call, r.Ret, r.Client = call, clock, c
+				ex.Hist = append(ex.Hist, r)
+			}
+			ex.Fired = fired
+			if fired {
+				pc[c2]++
+				n++ // the interleaved operation is done
+			}
+			continue
+		}
+		r, skipped, err := actors[c].step(op, logID, emptyNil)
 		if err != nil {
 			return nil, err
 		}
@@ -504,6 +632,7 @@ func (e *c05SQLiteEnv) runSeq(sc c05Scenario, order []int) (*c05Exec, error) {
 	r, _ := fc.do(c05Op{K: "F"}, logID, false, c05ClassifySQLite)
 	fresh.conn.Close()
 	stamp(r, -2)
+	sort.SliceStable(ex.Hist, func(i, j int) bool { return ex.Hist[i].Call < ex.Hist[j].Call })
 	return ex, nil
 }
 
